@@ -11,11 +11,6 @@ import LZ4V.Proofs.DecodeFun7
 namespace LZ4V.Model.Decode
 open LZ4V.Model LZ4V.Gen LZ4V.Spec.Block
 
-def nextSt : Next → St
-  | .fast s => s
-  | .safe s => s
-  | .done s => s
-
 theorem nextIp_eq (n : Next) : nextIp n = (nextSt n).ip := by cases n <;> rfl
 
 /-- the format-level walk over the sequences meets an offset of 0 -/
@@ -38,10 +33,11 @@ def iterOf (env : Env) : Next → Except Err Next
 /-- what the safety theorems and the simulation say together about one iteration -/
 theorem iter_facts (env : Env) (N : Nat) (hw : WF2 env N) (n : Next) (s : St) (hn : n = .safe s ∨ n = .fast s) (hinv : LoopInv env N n)
     (out : List UInt8) (hrel : Rel env s.buf s.op out) :
-    Good (NextOK env N s.ip) (iterOf env n) ∧ Sim (StepPost env s out) (VIter N s.op out.length (rem env.src s.ip)) (iterOf env n) := by
+    Good (NextOK env N s.ip) (iterOf env n) ∧ Sim (StepPost env N s out) (VIter env N s.op out.length (rem env.src s.ip)) (iterOf env n) := by
+  have c64 : FASTLOOP_SAFE_DISTANCE = 64 := rfl
   rcases hn with hn | hn <;> subst hn <;> simp only [LoopInv] at hinv <;> simp only [iterOf]
-  · exact ⟨safeIter_good env N hw.wf s hinv.1 hinv.2.2.1 hinv.2.1 hinv.2.2.2, safeIter_sim env N hw s hinv.1 hinv.2.1 out hrel⟩
-  · exact ⟨fastIter_good env N hw.wf s hinv.1 hinv.2.1 hinv.2.2.1 hinv.2.2.2, fastIter_sim env N hw s hinv.1 hinv.2.1 out hrel⟩
+  · exact ⟨safeIter_good env N hw.wf s hinv.1 hinv.2.2.1 hinv.2.1 hinv.2.2.2, safeIter_sim env N hw s hinv.1 hinv.2.1 hinv.2.2.1 out hrel⟩
+  · exact ⟨fastIter_good env N hw.wf s hinv.1 hinv.2.1 hinv.2.2.1 hinv.2.2.2, fastIter_sim env N hw s hinv.1 hinv.2.1 (by omega) out hrel⟩
 
 theorem loop_unfold (env : Env) (fuel : Nat) (n : Next) (s : St) (hn : n = .safe s ∨ n = .fast s) :
     loop env (fuel + 1) n =
@@ -50,7 +46,7 @@ theorem loop_unfold (env : Env) (fuel : Nat) (n : Next) (s : St) (hn : n = .safe
       | .ok n' => loop env fuel n' := by
   rcases hn with hn | hn <;> subst hn <;> rfl
 
-theorem loop_conv (env : Env) (N : Nat) (hw : WF2 env N) :
+theorem loop_conv (env : Env) (N : Nat) (hw : WF2 env N) (hnp : env.partialD = false) :
     ∀ (fuel : Nat) (n : Next) (s : St), (n = .safe s ∨ n = .fast s) → LoopInv env N n → ∀ out, Rel env s.buf s.op out →
       ∀ stf, loop env fuel n = .ok stf → ConvPost env s.ip out stf := by
   intro fuel
@@ -70,6 +66,10 @@ theorem loop_conv (env : Env) (N : Nat) (hw : WF2 env N) :
       simp only [Sim] at hs
       dsimp only at h
       have hinv' := hg.inv
+      have hfull : FullPost env s out n' := by
+        rcases hs (fun hp => by rw [hnp] at hp; cases hp) with hf | ⟨hp, _⟩
+        · exact hf
+        · rw [hnp] at hp; cases hp
       have step : ∀ s', (n' = .safe s' ∨ n' = .fast s') → SeqPost env s out s' → ConvPost env s.ip out stf := by
         intro s' hn' hsp
         obtain ⟨sq, hp, _, hpost⟩ := hsp
@@ -97,31 +97,131 @@ theorem loop_conv (env : Env) (N : Nat) (hw : WF2 env N) :
         | succ fuel' =>
           simp only [loop, Except.ok.injEq] at h
           subst h
-          simp only [StepPost] at hs
-          obtain ⟨l, hp, hr⟩ := hs
+          simp only [FullPost] at hfull
+          obtain ⟨l, hp, hr⟩ := hfull
           left
           refine ⟨1, out ++ l, ?_, hr⟩
           rw [decodeAux_pstep, hp]
-      | safe s' => exact step s' (Or.inl rfl) hs
-      | fast s' => exact step s' (Or.inr rfl) hs
+      | safe s' => exact step s' (Or.inl rfl) hfull
+      | fast s' => exact step s' (Or.inr rfl) hfull
+
+/-! ## forward direction -/
+
+theorem copyMatch_extends : ∀ (n : Nat) (out : List UInt8) (off : Nat) (r : List UInt8), copyMatch out off n = some r → out <+: r := by
+  intro n
+  induction n with
+  | zero => intro out off r h; simp only [copyMatch, Option.some.injEq] at h; subst h; exact List.prefix_refl _
+  | succ n ih =>
+    intro out off r h
+    simp only [copyMatch] at h
+    split at h
+    · split at h
+      · exact List.IsPrefix.trans (List.prefix_append _ _) (ih _ _ _ h)
+      · cases h
+    · cases h
+
+theorem copyMatch_split : ∀ (a b : Nat) (out : List UInt8) (off : Nat),
+    copyMatch out off (a + b) = (copyMatch out off a).bind (fun r => copyMatch r off b) := by
+  intro a
+  induction a with
+  | zero => intro b out off; simp [copyMatch]
+  | succ a ih =>
+    intro b out off
+    rw [show a + 1 + b = (a + b) + 1 by omega]
+    simp only [copyMatch]
+    split
+    · split
+      · exact ih b _ off
+      · rfl
+    · rfl
+
+theorem copyMatch_shorter (out : List UInt8) (off mlen ml : Nat) (outP out2 : List UInt8) (hle : mlen ≤ ml)
+    (h1 : copyMatch out off mlen = some outP) (h2 : copyMatch out off ml = some out2) : outP <+: out2 := by
+  have := copyMatch_split mlen (ml - mlen) out off
+  rw [show mlen + (ml - mlen) = ml by omega, h2, h1] at this
+  simp only [Option.bind_some] at this
+  exact copyMatch_extends _ _ _ _ this.symm
+
+theorem decodeAux_extends : ∀ (f : Nat) (inp out fin : List UInt8), decodeAux f inp out = some fin → out <+: fin := by
+  intro f
+  induction f with
+  | zero => intro inp out fin h; simp [decodeAux] at h
+  | succ f ih =>
+    intro inp out fin h
+    rw [decodeAux_pstep] at h
+    cases hp : pstep inp with
+    | fail => rw [hp] at h; cases h
+    | fin l => rw [hp] at h; simp only [Option.some.injEq] at h; rw [← h]; exact List.prefix_append _ _
+    | seq s rest =>
+      rw [hp] at h
+      dsimp only at h
+      cases hc : copyMatch (out ++ s.lits) s.off s.ml with
+      | none => rw [hc] at h; cases h
+      | some out2 =>
+        rw [hc] at h
+        exact (List.prefix_append _ _).trans ((copyMatch_extends _ _ _ _ hc).trans (ih _ _ _ h))
+
+/-- partial decoding, output already full: the next iteration of the safe loop stops without touching anything
+    (it reads the token and its literal-length field, copies nothing, and leaves through `op == oend`) -/
+theorem safeIter_stopped (env : Env) (N : Nat) (st : St) (hP : env.partialD = true) (hsz : st.buf.size = N) (hopN : st.op = N)
+    (hip : st.ip < env.src.size)
+    (hv : ∃ v rest, readField (env.src[st.ip].toNat / 16) (rem env.src (st.ip + 1)) = some (v, rest) ∧
+                    (v ≥ 15 → st.ip + 1 + (v - 15) / 255 + 1 + 15 ≤ env.src.size)) :
+    ∃ ip', safeIter env st = .ok (.done ⟨ip', st.op, st.buf⟩) := by
+  have h8 : rd8 env.src st.ip = .ok (env.src[st.ip].toNat) := by unfold rd8; rw [dif_pos hip]
+  have hg := litLen_good env.src (st.ip + 1) (env.src[st.ip].toNat) (by omega)
+  have hs := litLen_sim env.src (st.ip + 1) (env.src[st.ip].toNat)
+  have hlit : ∃ r, litLen env.src (st.ip + 1) (env.src[st.ip].toNat) = .ok r := by
+    revert hg hs
+    generalize litLen env.src (st.ip + 1) (env.src[st.ip].toNat) = x
+    intro hg hs
+    match x, hg, hs with
+    | .ok r, _, _ => exact ⟨r, rfl⟩
+    | .error (.bad _), _, hs => exact absurd hv hs
+    | .error (.fault _), hg, _ => simp [Good] at hg
+    | .error .fuel, hg, _ => simp [Good] at hg
+  obtain ⟨r, hr⟩ := hlit
+  have hll : lastLitLen env st r.2 r.1 = .ok 0 := by
+    unfold lastLitLen
+    rw [hP, hsz]
+    simp only [if_true]
+    generalize (if r.2 + r.1 > env.src.size then env.src.size - r.2 else r.1) = L1
+    by_cases hc : st.op + L1 > N
+    · rw [if_pos hc]; congr 1; omega
+    · rw [if_neg hc]; congr 1; omega
+  refine ⟨r.2 + 0, ?_⟩
+  unfold safeIter
+  rw [h8]
+  simp only [bind, Except.bind]
+  rw [if_neg (by rw [hsz]; unfold shortOutMargin; omega), hr]
+  dsimp only
+  unfold safeLit
+  rw [if_pos (Or.inl (by rw [hsz]; unfold MFLIMIT; omega)), hll]
+  simp only [bind, Except.bind, copyIn]
+  rw [if_pos (Or.inr (Or.inl (by rw [hsz]; omega)))]
+  rfl
 
 /-- forward hypothesis of a whole run: every remaining step is valid (`VIter`) and the specification's copies succeed -/
-def VTail (N : Nat) : Nat → Nat → List UInt8 → List UInt8 → Prop
+def VTail (env : Env) (N : Nat) : Nat → Nat → List UInt8 → List UInt8 → Prop
   | 0, _, _, _ => False
-  | f+1, op, inp, out => VIter N op out.length inp ∧
+  | f+1, op, inp, out => VIter env N op out.length inp ∧
     match pstep inp with
-    | .seq s rest => ∃ out2, copyMatch (out ++ s.lits) s.off s.ml = some out2 ∧ VTail N f (op + s.lits.length + s.ml) rest out2
+    | .seq s rest => ∃ out2, copyMatch (out ++ s.lits) s.off s.ml = some out2 ∧ VTail env N f (op + s.lits.length + s.ml) rest out2
     | _ => True
+
+/-- the run ended with the specification's output `fin`, or — partial decoding — with a prefix of it and the destination full -/
+def FwdPost (env : Env) (N : Nat) (stf : St) (fin : List UInt8) : Prop :=
+  ∃ outP, Rel env stf.buf stf.op outP ∧ outP <+: fin ∧ (outP = fin ∨ (env.partialD = true ∧ stf.op = N))
 
 theorem loop_fwd (env : Env) (N : Nat) (hw : WF2 env N) :
     ∀ (fuel : Nat) (n : Next) (s : St), (n = .safe s ∨ n = .fast s) → LoopInv env N n → env.src.size - s.ip < fuel → ∀ out, Rel env s.buf s.op out →
-      ∀ f, VTail N f s.op (rem env.src s.ip) out →
-      ∃ stf outf, loop env fuel n = .ok stf ∧ decodeAux f (rem env.src s.ip) out = some outf ∧ Rel env stf.buf stf.op outf := by
+      ∀ f fin, VTail env N f s.op (rem env.src s.ip) out → decodeAux f (rem env.src s.ip) out = some fin →
+      ∃ stf, loop env fuel n = .ok stf ∧ FwdPost env N stf fin := by
   intro fuel
   induction fuel with
   | zero => intro n s _ _ hf; omega
   | succ fuel ih =>
-    intro n s hn hinv hfu out hrel f hvt
+    intro n s hn hinv hfu out hrel f fin hvt hdec
     rw [loop_unfold env fuel n s hn]
     obtain ⟨hg, hs⟩ := iter_facts env N hw n s hn hinv out hrel
     have hsip : s.ip < env.src.size := by rcases hn with hn | hn <;> subst hn <;> simp only [LoopInv] at hinv <;> omega
@@ -130,6 +230,7 @@ theorem loop_fwd (env : Env) (N : Nat) (hw : WF2 env N) :
     | succ f =>
     simp only [VTail] at hvt
     obtain ⟨hvi, hvt⟩ := hvt
+    rw [decodeAux_pstep] at hdec
     revert hg hs
     generalize iterOf env n = r
     intro hg hs
@@ -143,39 +244,97 @@ theorem loop_fwd (env : Env) (N : Nat) (hw : WF2 env N) :
       dsimp only
       have hinv' := hg.inv
       have hprog := hg.progress
-      have step : ∀ s', (n' = .safe s' ∨ n' = .fast s') → SeqPost env s out s' →
-          ∃ stf outf, loop env fuel n' = .ok stf ∧ decodeAux (f + 1) (rem env.src s.ip) out = some outf ∧ Rel env stf.buf stf.op outf := by
-        intro s' hn' hsp
-        obtain ⟨sq, hp, hop, hpost⟩ := hsp
-        unfold VIter at hvi
-        rw [hp] at hvi hvt
-        dsimp only at hvi hvt
-        obtain ⟨out2, hcm, hvt'⟩ := hvt
-        obtain ⟨_, out2', hcm', hrel2⟩ := hpost hvi.1
-        rw [hcm] at hcm'
-        simp only [Option.some.injEq] at hcm'
-        subst hcm'
-        have hip' : s.ip < s'.ip := by
-          rcases hprog with ⟨sd, hd⟩ | hlt
-          · rcases hn' with h | h <;> (rw [h] at hd; cases hd)
-          · rcases hn' with h | h <;> (rw [h] at hlt; simpa [nextIp] using hlt)
-        rw [← hop] at hvt'
-        obtain ⟨stf, outf, h1, h2, h3⟩ := ih n' s' hn' hinv' (by omega) out2 hrel2 f hvt'
-        refine ⟨stf, outf, h1, ?_, h3⟩
-        rw [decodeAux_pstep, hp]
-        dsimp only
-        rw [hcm]
-        exact h2
-      cases n' with
-      | done s' =>
+      have hpost := hs (fun _ => hvi)
+      have hdoneloop : ∀ s', n' = .done s' → loop env fuel n' = .ok s' := by
+        intro s' hn'
+        subst hn'
         cases fuel with
         | zero => omega
-        | succ fuel' =>
-          simp only [StepPost] at hs
-          obtain ⟨l, hp, hr⟩ := hs
-          refine ⟨s', out ++ l, by simp [loop], ?_, hr⟩
-          rw [decodeAux_pstep, hp]
-      | safe s' => exact step s' (Or.inl rfl) hs
-      | fast s' => exact step s' (Or.inr rfl) hs
+        | succ fuel' => simp [loop]
+      rcases hpost with hfull | ⟨hP, hstop⟩
+      · -- a whole step
+        have step : ∀ s', (n' = .safe s' ∨ n' = .fast s') → SeqPost env s out s' → ∃ stf, loop env fuel n' = .ok stf ∧ FwdPost env N stf fin := by
+          intro s' hn' hsp
+          obtain ⟨sq, hp, hop, hpost⟩ := hsp
+          unfold VIter at hvi
+          rw [hp] at hvi hvt hdec
+          dsimp only at hvi hvt hdec
+          obtain ⟨out2, hcm, hvt'⟩ := hvt
+          rw [hcm] at hdec
+          dsimp only at hdec
+          obtain ⟨_, out2', hcm', hrel2⟩ := hpost hvi.1
+          rw [hcm] at hcm'
+          simp only [Option.some.injEq] at hcm'
+          subst hcm'
+          have hip' : s.ip < s'.ip := by
+            rcases hprog with ⟨sd, hd⟩ | hlt
+            · rcases hn' with h | h <;> (rw [h] at hd; cases hd)
+            · rcases hn' with h | h <;> (rw [h] at hlt; simpa [nextIp] using hlt)
+          rw [← hop] at hvt'
+          exact ih n' s' hn' hinv' (by omega) out2 hrel2 f fin hvt' hdec
+        cases n' with
+        | done s' =>
+          simp only [FullPost] at hfull
+          obtain ⟨l, hp, hr⟩ := hfull
+          rw [hp] at hdec
+          simp only [Option.some.injEq] at hdec
+          exact ⟨s', hdoneloop s' rfl, out ++ l, hr, by rw [hdec]; exact List.prefix_refl _, Or.inl hdec⟩
+        | safe s' => exact step s' (Or.inl rfl) hfull
+        | fast s' => exact step s' (Or.inr rfl) hfull
+      · -- partial decoding stopped inside this step
+        obtain ⟨hopN, ⟨outP, hrelP, hpre⟩, hcont⟩ := hstop
+        have hprefix : outP <+: fin := by
+          unfold StepPrefix at hpre
+          cases hp : pstep (rem env.src s.ip) with
+          | fail => rw [hp] at hpre; exact hpre.elim
+          | fin l =>
+            rw [hp] at hpre hdec
+            simp only [Option.some.injEq] at hdec
+            obtain ⟨j, _, hj⟩ := hpre
+            rw [hj, ← hdec]
+            exact (List.prefix_append_right_inj out).mpr (List.take_prefix j l)
+          | seq sq rest =>
+            rw [hp] at hpre hdec hvt
+            dsimp only at hpre hdec hvt
+            obtain ⟨out2, hcm, _⟩ := hvt
+            rw [hcm] at hdec
+            dsimp only at hdec
+            have h2 := (copyMatch_extends _ _ _ _ hcm).trans (decodeAux_extends _ _ _ _ hdec)
+            rcases hpre with ⟨j, _, hj⟩ | ⟨mlen, hml, hc⟩
+            · rw [hj]
+              exact ((List.prefix_append_right_inj out).mpr (List.take_prefix j sq.lits)).trans h2
+            · exact (copyMatch_shorter _ _ _ _ _ _ hml hc hcm).trans (decodeAux_extends _ _ _ _ hdec)
+        cases n' with
+        | done s' =>
+          exact ⟨s', hdoneloop s' rfl, outP, hrelP, hprefix, Or.inr ⟨hP, hopN⟩⟩
+        | fast s' =>
+          exfalso
+          simp only [LoopInv] at hinv'
+          simp only [nextSt] at hopN
+          have c64 : FASTLOOP_SAFE_DISTANCE = 64 := rfl
+          omega
+        | safe s' =>
+          -- stopped inside an external-dictionary match: one more iteration leaves through `op == oend`
+          simp only [nextSt] at hopN hrelP
+          simp only [LoopInv] at hinv'
+          obtain ⟨sq, hp⟩ := hcont s' (Or.inl rfl)
+          rw [hp] at hvt
+          dsimp only at hvt
+          obtain ⟨out2, _, hvt'⟩ := hvt
+          have hip' : s.ip < s'.ip := by
+            rcases hprog with ⟨sd, hd⟩ | hlt
+            · cases hd
+            · simpa [nextIp] using hlt
+          cases f with
+          | zero => exact hvt'.elim
+          | succ f' =>
+            simp only [VTail] at hvt'
+            obtain ⟨ip'', hstopped⟩ := safeIter_stopped env N s' hP hinv'.1 hopN hinv'.2.2.2
+              (vlit_of_viter env N _ _ s'.ip _ hinv'.2.2.2 rfl hvt'.1)
+            have hfuel2 : ∃ k, fuel = k + 2 := ⟨fuel - 2, by omega⟩
+            obtain ⟨k, hk⟩ := hfuel2
+            refine ⟨⟨ip'', s'.op, s'.buf⟩, ?_, outP, hrelP, hprefix, Or.inr ⟨hP, hopN⟩⟩
+            rw [hk]
+            simp only [loop, hstopped]
 
 end LZ4V.Model.Decode
